@@ -18,6 +18,11 @@ PROPS = {
     "C09": grid_prop(8000, 300000, floors=dict(FAMS, **{"batch:singles": 0.2, "interleaved-candidates": 0.1, "start:empty": 0.15, "target:stable-refined": 0.03})),
     "C11": grid_prop(25000, 800000, floors=dict(FAMS, **{"range-copy": 0.1, "src:pending": 0.015, "src:constructing": 0.05, "range:construction-continuation": 0.01})),
     "C14": grid_prop(30000, 1000000, hang_is_violation=True, floors={"state:E": 0.03, "state:F": 0.05, "state:L": 0.1, "state:P": 0.03, "state:C": 0.05, "state:Z": 0.03, "post:empty": 0.03}),
+    "C12": dict(flavour="tsan", binary="vdrive_tsan", level="exploration", props_dir="props_tsan",
+                quick=dict(cases=4000, size=200, wall=900, case_budget=30), thorough=dict(cases=200000, size=300, wall=3000, case_budget=60),
+                floors=dict(FAMS, **{"wavelet-weight-queries": 0.03}),
+                assumptions=["ThreadSanitizer reports every data race between the executed calls (happens-before analysis; it does not depend on the actual interleaving)",
+                             "deadlocks and lost wake-ups that need one specific interleaving are only reachable through the start jitter"]),
     "C06": grid_prop(40000, 1500000,
                      floors={"fam:global": 0.08, "fam:sequence": 0.08, "fam:localp": 0.08, "fam:wavelet": 0.08, "fam:fourier": 0.08,
                              "fmt:ascii": 0.35, "sec:pending": 0.04, "sec:construction": 0.04, "sec:transform": 0.04, "sec:limits": 0.04}),
@@ -30,6 +35,10 @@ NOT_APPLICABLE = {}
 
 _TB = "Trusted base: the harness (decoder, reference models, oracles) and the sanitizer runtimes; generation is random, so absence of violations is evidence for the explored distribution only (reported in the evidence file)."
 META = {
+    "C12": dict(technique="property-based testing (rapidcheck, structure-aware byte decoder) of generated multisets of const calls run from 2-8 threads under ThreadSanitizer, with a sequential pre-pass as the reference for every result",
+                text="For generated grid states of all families, generated per-thread lists of const calls (evaluate*, weights, integrate, differentiate, hierarchical functions, getters, polynomial space, anisotropic estimate, write, copy construction) are released together "
+                     "from 2-8 threads; ThreadSanitizer must stay silent and every call must return bitwise what it returns when run alone. Schedules are sampled, not enumerated. Exploration.",
+                note="Trusted base: ThreadSanitizer's happens-before race detection, the harness. Interleaving-specific failures (no data race, wrong result only under one schedule) can be missed."),
     "C14": dict(technique="property-based testing (rapidcheck, structure-aware byte decoder) over a misuse catalogue transcribed from the documented throws-clauses: exception-type oracle, bitwise digest-before == digest-after (or empty), continuation against a pristine copy; ASan/UBSan, watchdog",
                 text="Grid states from generated histories (empty, fresh, loaded, pending refinement, active construction, zero outputs; all families) receive one generated violation of a documented throws-clause (make*/update/refine/estimate/candidates/load*/set*/get* "
                      "with wrong sizes, ranges, grid types or call order; unreadable files and valid files of the state itself with a damaged documented header or trailer field, ascii and binary, stream and file). The call must throw std::invalid_argument or "
@@ -96,6 +105,95 @@ META.update({
                      "exactly the proposals that passed the domain test; every recorded sample must satisfy the domain test and carry the pdf of that sample; the history must grow by collect x chains; the acceptance rate must equal the "
                      "number of accepted proposals in collected iterations over the number of recorded samples; a run split into two consecutive calls must equal the single run bitwise under the same stream. Exploration.",
                 note=_TB + " Index draws are classified (labels, non-triviality, known-finding exclusion only) by the draw order of tsgDreamSample.hpp."),
+})
+
+
+# ---- C19 / C20 (optimization)
+
+_ASSUME = ["sanitizers (ASan+UBSan) see every memory error on the executed paths",
+           "the harness objectives, gradients, exact projections, domain tests and the reference tracker of the best positions are correct (pure functions of the case bytes)"]
+
+PROPS.update({
+    # one C19 case = one problem run for every cap 0..N (N <= 40) in both variants: ~20-80 library calls
+    "C19": grid_prop(20000, 800000, assumptions=_ASSUME,
+                        floors={"nt:cap-in-linesearch-after-accept": 0.2, "obj:quad-diag": 0.1, "obj:quad-rot": 0.1, "obj:rosenbrock": 0.08, "obj:trig": 0.08,
+                                "proj:none-overload": 0.08, "proj:identity": 0.04, "proj:box": 0.1, "proj:ball": 0.08, "proj:halfspace": 0.08,
+                                "cstep:below-2/L": 0.2, "cstep:above-2/L": 0.1, "cstep:tolerance-reached": 0.05, "stop:tolerance": 0.05}),
+    "C20": grid_prop(50000, 2000000, assumptions=_ASSUME,
+                        floors={"nt:outside+multi-call": 0.2, "edits": 0.3, "dom:box": 0.08, "dom:halfspace": 0.08, "dom:nothing": 0.03, "dom:hole": 0.05,
+                                "edit:clearCache": 0.05, "edit:clearBestParticles": 0.05, "edit:setParticlePositions": 0.05, "edit:setParticleVelocities": 0.03,
+                                "edit:setBestParticlePositions": 0.05, "split-checked": 0.3}),
+})
+
+META.update({
+    "C19": dict(technique="property-based testing (rapidcheck, structure-aware byte decoder) with a callback log of every objective / gradient / projection call; exhaustive sweep of the iteration cap 0..N per generated problem; "
+                          "independent re-evaluation of the descent inequality and of the constant-step recurrence; ASan/UBSan",
+                text="Generated problems (convex quadratics with condition number up to 1e4, Rosenbrock-like, non-convex trigonometric; identity, box, ball and half-space projections; feasible starts, step parameters, tolerances) "
+                     "are run through the adaptive GradientDescent for every iteration cap 0..N: the number of trial points never exceeds the cap, the returned state is the start or a projection output and is the last trial point that "
+                     "passed the recomputed descent inequality, its objective is not above the start and not above the result of any smaller cap (tolerance of the descent test per accepted step); the constant-step overload must perform exactly "
+                     "min(cap, first step reaching the tolerance) steps and return the harness recurrence bitwise. Exploration.",
+                note=_TB + " The step-size schedule is mirrored from tsgGradientDescent.cpp and guarded by the logged projection input."),
+    "C20": dict(technique="stateful property-based testing (rapidcheck, structure-aware byte decoder) with logged domain / objective callbacks, a scripted random stream, a reference tracker of personal and swarm bests, "
+                          "and a metamorphic split oracle (n then m iterations == n+m); ASan/UBSan",
+                text="Generated swarms (1-8 particles, 1-3 dims; box, half-space, hole, empty and full domains; sphere, shifted sphere and multi-modal objectives through the batch interface and the single-point wrapper) are advanced by "
+                     "several ParticleSwarm calls with state edits in between (clearCache, clearBestParticles, manual positions / velocities / best positions, objective switch): every row handed to the objective is inside the domain, every "
+                     "best-known position is a row that was evaluated inside the domain (or stays unset), the swarm best equals the minimum over all in-domain evaluations since the last reset and never increases, and splitting a call "
+                     "into two with the same random stream gives bitwise identical positions, velocities and bests. Exploration.",
+                note=_TB + " The cached objective values are private; their coherence is observed through the best positions of later calls."),
+})
+
+
+# ---- C02 / C03 (exactness)
+
+_ASSUME_0203 = ["sanitizers (ASan+UBSan) see every memory error on the executed paths",
+           "the harness reference mathematics (exact moments of the documented weight functions in long double, own inverse of the linear maps, "
+           "Fourier point index -> frequency convention of DESIGN Appendix A, own 80-point Gauss-Legendre reference for the exotic weights) is correct",
+           "generalised Gauss-Hermite is read with the weight |x-a|^alpha exp(-b (x-a)^2) (tsgEnumerates.hpp prints (x-a)^alpha, which is not a weight function for odd or fractional alpha)",
+           "clenshaw-curtis-zero is asserted on polynomials vanishing at the boundary only (DESIGN 2.9); exotic tables are asserted without a domain transform (documented on [-1,1])"]
+
+_GLOBAL_RULES_0203 = ["chebyshev", "chebyshev-odd", "clenshaw-curtis", "clenshaw-curtis-zero", "fejer2", "gauss-chebyshev1", "gauss-chebyshev1-odd", "gauss-chebyshev2", "gauss-chebyshev2-odd",
+                 "gauss-gegenbauer", "gauss-gegenbauer-odd", "gauss-hermite", "gauss-hermite-odd", "gauss-jacobi", "gauss-jacobi-odd", "gauss-laguerre", "gauss-laguerre-odd",
+                 "gauss-legendre", "gauss-legendre-odd", "gauss-patterson", "leja", "leja-odd", "max-lebesgue", "max-lebesgue-odd", "min-delta", "min-delta-odd", "min-lebesgue",
+                 "min-lebesgue-odd", "rleja", "rleja-double2", "rleja-double4", "rleja-odd", "rleja-shifted", "rleja-shifted-double", "rleja-shifted-even"]
+_SEQ_RULES_0203 = ["leja", "max-lebesgue", "min-delta", "min-lebesgue", "rleja", "rleja-shifted"]
+_TYPES_0203 = ["level", "curved", "hyperbolic", "iptotal", "qptotal", "ipcurved", "qpcurved", "iphyperbolic", "qphyperbolic", "tensor", "iptensor", "qptensor"]
+
+def _floors_0203(base, rule_floor, seq_floor, type_floor):
+    f = dict(base)
+    for r in _GLOBAL_RULES_0203: f["rule:" + r] = rule_floor     # DESIGN: every rule >= 0.5 % of the Global cases (Global cases are ~55 % of all)
+    for r in _SEQ_RULES_0203: f["seq:" + r] = seq_floor
+    for t in _TYPES_0203: f["type:" + t] = type_floor            # DESIGN: every depth type >= 3 %
+    return f
+
+PROPS.update({
+    "C02": grid_prop(50000, 2000000, assumptions=_ASSUME_0203, floors=_floors_0203({
+        "fam:global": 0.4, "fam:sequence": 0.1, "fam:fourier": 0.1, "fam:localp": 0.02, "fam:wavelet": 0.02,
+        "rule:custom-gl": 0.008, "rule:exotic": 0.015, "transform": 0.27, "limits": 0.12, "aniso": 0.12, "alpha-beta": 0.03, "zero-boundary": 0.015,
+        "hist:refined": 0.08, "state:pending": 0.015, "outs:0": 0.1, "d:2": 0.15, "d:3": 0.12}, 0.003, 0.012, 0.03)),
+    "C03": grid_prop(30000, 1000000, assumptions=_ASSUME_0203, floors=_floors_0203({
+        "fam:global": 0.3, "fam:sequence": 0.08, "fam:fourier": 0.08, "fam:localp": 0.08, "fam:wavelet": 0.07,
+        "rule:custom-gl": 0.006, "rule:exotic": 0.01, "non-nested": 0.08, "transform": 0.2, "limits": 0.12, "aniso": 0.1, "zero-boundary": 0.015,
+        "lp:localp": 0.03, "lp:semi-localp": 0.015, "lp:localp-boundary": 0.015, "lp:order-1": 0.007, "lp:order1": 0.015, "lp:order2": 0.008, "lp:order3": 0.008, "lp:order4": 0.007, "lp:order5": 0.007,
+        "hist:refined": 0.05, "wave:o1": 0.03, "wave:o3": 0.03, "x:non-node": 0.5, "x:node": 0.5, "x:boundary": 0.3, "x:near-node": 0.15, "d:2": 0.15, "d:3": 0.12}, 0.002, 0.01, 0.02)),
+})
+
+META.update({
+    "C02": dict(technique="property-based testing (rapidcheck, structure-aware byte decoder) against closed-form moments of the documented weight functions evaluated in long double "
+                          "(Jacobi three-term recurrence, Gamma functions, binomially expanded affine maps, own Gauss-Legendre reference for exotic weights); ASan/UBSan",
+                text="Generated Global (all 35 built-in rules with alpha/beta from a palette, an in-memory custom Gauss-Legendre table, four exotic tables from getExoticQuadrature), Sequence and Fourier grids "
+                     "(d <= 3, all 12 depth types, anisotropic weights, level limits, linear transforms, 0-3 outputs, optionally one update/refinement step so that the tensor set is a general lower set) are asked for "
+                     "getGlobalPolynomialSpace(false); for every listed multi-index (all up to 300, otherwise all maximal ones plus a sample) sum_i w_i x_i^p must equal the exact moment of the weight function documented for the rule "
+                     "on the transformed domain; the weights must sum to the measure of the domain; for Fourier grids every mode attached to a grid point must integrate to delta_k0 * volume; integrate() must equal the weighted sum "
+                     "of the loaded values (all five families). clenshaw-curtis-zero is asserted on polynomials that vanish at the boundary. Exploration.",
+                note=_TB + " Tolerance 5e-9 (5e-8 for the numerically constructed exotic tables) times sum_i |w_i phi(x_i)| floored by sum|w| * prod R_j^p_j; largest ratio observed on the pinned tree is recorded in the evidence."),
+    "C03": dict(technique="property-based testing (rapidcheck, structure-aware byte decoder): members of the declared space are loaded as separate outputs and compared, at generated points, with their exact values "
+                          "evaluated in long double; ASan/UBSan",
+                text="Generated grids of all five families (Global incl. non-nested, custom and exotic tables; Sequence; Fourier; LocalPolynomial of order != 0 with localp / semi-localp / localpb and depth >= 1; Wavelet order 1/3; "
+                     "d <= 3, all depth types, anisotropic weights, level limits, linear transforms) get 1-8 members of their space as outputs: monomials of getGlobalPolynomialSpace(true) (maximal and arbitrary ones), cos/sin modes attached to "
+                     "Fourier grid points, affine functions in the directions whose level limit is not 0. At 3-6 points (interior, grid nodes, points 1e-13..1e-6 next to a node, domain boundary) evaluate(x) and "
+                     "sum_i w_i(x) phi(x_i) with w = getInterpolationWeights(x) must equal phi(x), and the weights must sum to one. clenshaw-curtis-zero is asserted on the span of its documented basis (DESIGN 2.9). Exploration.",
+                note=_TB + " Wavelet grids with a linear transform: evaluation points whose library-style inverse image rounds outside [-1,1] are excluded by construction (known finding *-wavelet-transformed-boundary, counted in the evidence). "
+                               "Fourier interpolation weights within ~2e-7 of a node come from a guarded closed form and are compared with tolerance 1e-6 instead of 1e-9."),
 })
 
 
